@@ -611,8 +611,16 @@ VARS_2 = {'x1t': 2, 'x1r': 3, 'x2t': 4, 'x2r': 5, 'y1t': 6, 'y1r': 7, 'y2t': 8, 
 VARS_SUB = dict(VARS_2, xi1=1, xi2=0)
 VARS_MAP = dict(VARS_2, c0=1, c1=0)
 
-# row blocks of the 30x30 families (balanced by the cost of the exact side, ~ sum of (i+1))
-BLOCKS = [(0, 12), (12, 17), (17, 21), (21, 24), (24, 27), (27, 30)]
+# static row blocks of the 30x30 families (balanced by measured kernel time per row); the Lean
+# side (Props/C10.lean, *All.lean) relies on these names, so they are fixed here
+def _blocks(bounds):
+    return list(zip(bounds[:-1], bounds[1:]))
+
+
+BLOCKS = {'sub': _blocks([0, 7, 12, 16, 19, 22, 25, 27, 30]),
+          'map': _blocks([0, 1, 2, 3, 4, 6, 9, 12, 16, 20, 25, 30])}
+GAUSS_BLOCKS = [(2, 41), (41, 52), (52, 59), (59, 65)]
+HEARTBEATS = 400000000
 
 
 def lean_expr(e, vmap):
@@ -694,7 +702,7 @@ def emit_all(repo, gen_dir, write):
     # sub / map: one module per family and row block
     for kind, fams, vmap in (('sub', SUB, VARS_SUB), ('map', MAP, VARS_MAP)):
         for fam in fams:
-            for b, (lo, hi) in enumerate(BLOCKS):
+            for b, (lo, hi) in enumerate(BLOCKS[kind]):
                 ns = module_name(kind, fam[:fam.rindex('_')], b)
                 put(ns, emit_rows(kind, fam, T[kind][fam], vmap, rel + 'bardell_integral_%s.c' % fam, lo, hi, ns))
     # Gauss-Legendre: literals as (negative?, mantissa, decimals)
@@ -716,7 +724,100 @@ def emit_all(repo, gen_dir, write):
                % ', '.join('(%d, points_%d, weights_%d)' % (n, n, n) for n in range(2, 65)))
     out.append('\nend Compmech.C10.Gen.LegGauss\n')
     put('LegGauss', ''.join(out))
+    mods += emit_checks(gen_dir, write)
     return T, mods
+
+
+CHK_HEADER = ('/- GENERATED by tools/translate/ctables.py — do not edit.\n'
+              '   Kernel checks (`decide +kernel`) of the generated data against the exact Bardell data;\n'
+              '   the text of this file does not depend on the C sources, only the imported data does. -/\n')
+
+
+def emit_checks(gen_dir, write):
+    """check modules (one per data module) and the per-family `*All` modules"""
+    mods = []
+    hb = 'set_option maxHeartbeats %d in\n' % HEARTBEATS
+
+    def put(name, text):
+        write(os.path.join(gen_dir, name + '.lean'), text)
+        mods.append(name)
+
+    def chain(names, nil):
+        t = nil
+        for n in reversed(names):
+            t = 'checkRows_cons_true %s (%s)' % (n, t)
+        return t
+
+    # function tables
+    out = [CHK_HEADER, 'import CompmechVerif.Bardell.CheckGlue\nimport CompmechVerif.Gen.CTables.Func\n',
+           'namespace Compmech.C10.Gen.Func\nopen Compmech.C10\n\n']
+    for name, d in (('calc_f', 0), ('calc_fxi', 1), ('calc_fxixi', 2),
+                    ('calc_vec_f', 0), ('calc_vec_fxi', 1), ('calc_vec_fxixi', 2)):
+        out.append(hb + 'theorem %s_ok : checkRow tolFuncN tolFuncD %s (funcWantRow %d) = true := by decide +kernel\n\n'
+                   % (name, name, d))
+    out.append('end Compmech.C10.Gen.Func\n')
+    put('FuncCheck', ''.join(out))
+
+    def block_check(ns, wrow, tol, lo, hi):
+        out = [CHK_HEADER, 'import CompmechVerif.Bardell.CheckGlue\nimport CompmechVerif.Gen.CTables.%s\n' % ns,
+               'namespace Compmech.C10.Gen.%s\nopen Compmech.C10\n\n' % ns]
+        for i in range(lo, hi):
+            out.append(hb + 'theorem row_%d_ok : checkRow %s row_%d (%s %d) = true := by decide +kernel\n\n'
+                       % (i, tol, i, wrow, i))
+        out.append('theorem ok : checkRows %s (%s) %d rows = true :=\n  %s\n\n'
+                   % (tol, wrow, lo, chain(['row_%d_ok' % i for i in range(lo, hi)], 'checkRows_nil_true _ _ _ _')))
+        out.append('theorem rows_length : rows.length = %d := rfl\n\n' % (hi - lo))
+        out.append('end Compmech.C10.Gen.%s\n' % ns)
+        put(ns + 'Check', ''.join(out))
+
+    for fam in FULL:
+        d1, d2 = DERIV[fam]
+        block_check(module_name('full', fam), 'fullWantRow %d %d' % (d1, d2), 'tolFuncN tolFuncD', 0, NB)
+    for kind, fams, wname in (('sub', SUB, 'subWantRow'), ('map', MAP, 'mapWantRow')):
+        for fam in fams:
+            base = fam[:fam.rindex('_')]
+            d1, d2 = DERIV[base]
+            wrow = '%s %d %d' % (wname, d1, d2)
+            names = []
+            for b, (lo, hi) in enumerate(BLOCKS[kind]):
+                ns = module_name(kind, base, b)
+                names.append(ns)
+                block_check(ns, wrow, 'tolSubN tolSubD', lo, hi)
+            # the whole table = concatenation of the blocks
+            alln = module_name(kind, base) + 'All'
+            out = [CHK_HEADER] + ['import CompmechVerif.Gen.CTables.%sCheck\n' % n for n in names]
+            out.append('namespace Compmech.C10.Gen.%s\nopen Compmech.C10\n\n' % alln)
+            out.append('/-- all 30 rows of `integral_%s` -/\ndef rows : List (List E) :=\n  %s\n\n'
+                       % (fam, ' ++ ('.join('%s.rows' % n for n in names) + ')' * (len(names) - 1)))
+            t = '%s.ok' % names[-1]
+            for n in reversed(names[:-1]):
+                t = 'checkRows_append_true %s.ok (%s)' % (n, t)
+            out.append('theorem ok : checkRows tolSubN tolSubD (%s) 0 rows = true :=\n  %s\n\n' % (wrow, t))
+            out.append('theorem rows_length : rows.length = %d := rfl\n\n' % NB)
+            out.append('end Compmech.C10.Gen.%s\n' % alln)
+            put(alln, ''.join(out))
+    # Gauss
+    gnames = []
+    for b, (lo, hi) in enumerate(GAUSS_BLOCKS):
+        ns = 'LegGaussCheck%d' % b
+        gnames.append((ns, lo, hi))
+        out = [CHK_HEADER, 'import CompmechVerif.Bardell.Gauss\nimport CompmechVerif.Gen.CTables.LegGauss\n',
+               'namespace Compmech.C10.Gen.%s\nopen Compmech.C10 Compmech.C10.Gen.LegGauss\n\n' % ns]
+        for n in range(lo, hi):
+            out.append(hb + 'theorem c_%d : caseOk (%d, points_%d, weights_%d) = true := by decide +kernel\n\n' % (n, n, n, n))
+        out.append('end Compmech.C10.Gen.%s\n' % ns)
+        put(ns, ''.join(out))
+    out = [CHK_HEADER] + ['import CompmechVerif.Gen.CTables.%s\n' % n for n, _, _ in gnames]
+    out.append('namespace Compmech.C10.Gen.LegGaussAll\nopen Compmech.C10 Compmech.C10.Gen.LegGauss\n\n')
+    t = 'casesOk_nil'
+    for ns, lo, hi in reversed(gnames):
+        for n in reversed(range(lo, hi)):
+            t = 'casesOk_cons %s.c_%d (%s)' % (ns, n, t)
+    out.append('set_option maxRecDepth 8192 in\ntheorem ok : casesOk table = true :=\n  %s\n\n' % t)
+    out.append('theorem orders : table.map (fun t => t.1) = List.range\' 2 63 := by decide\n\n')
+    out.append('end Compmech.C10.Gen.LegGaussAll\n')
+    put('LegGaussAll', ''.join(out))
+    return mods
 
 
 if __name__ == '__main__':
